@@ -11,7 +11,7 @@ DESIGN_REF = "DESIGN.md section 4 / C01"
 CHUNK = 16
 RULE = ("complete enumeration of (family x Hessian x per-variable box/start/minimiser "
         "letters x maxcor) for n<=2 (quick) / n<=3 (thorough) plus cyclic tilings of every "
-        "2-variable pattern to n in {4,6,8,12}; one real minimize_lbfgsb run per case with "
+        "2-variable pattern to n in {4,6,8,12}, and the n=2 letter space with the box written as a list of (min,max) pairs with +-inf / with None or with user callables that overwrite their argument; one real minimize_lbfgsb run per case with "
         "ftol=0, gtol=1e-6; oracle: projected-gradient norm recomputed from the harness "
         "closures <= max(100*gtol, 30*sqrt(eps*max(|f|,|f0|,1)*L)), no exception; "
         "non-trivial = at least one iteration AND some variable on a bound at the start or "
@@ -36,6 +36,14 @@ def cases(tier, variants):
             yield from F.convex_cases(2, variants, (3,), fams=("qp", "quart"),
                                       hesses=("rot4",), boxes=("free", "lo", "up"),
                                       extra=dict(far=far))
+        # letter: the box written as a list of (min, max) pairs, with +-inf or with None
+        for rep in ("pairs", "none"):
+            yield from F.convex_cases(2, variants, (3,), fams=("qp",), hesses=("rot2",),
+                                      extra=dict(brep=rep))
+        # user letter: an objective/gradient implementation that works in place on the
+        # array it receives (mathematically the same function)
+        yield from F.convex_cases(2, variants, (3,), fams=("qp", "soft"), hesses=("rot2",),
+                                  extra=dict(user="scribble"))
         # a thin slice of the tilings so that larger n is exercised on every change
         yield from F.tiled_cases(6, 2, variants, [("rot2", 4)], fams=("qp",))
     else:
@@ -47,6 +55,9 @@ def cases(tier, variants):
         for far in (2e3, 1e6):
             yield from F.convex_cases(2, variants, (1, 3, 10), boxes=("free", "lo", "up"),
                                       extra=dict(far=far))
+        for rep in ("pairs", "none"):
+            yield from F.convex_cases(2, variants, (1, 3, 10), extra=dict(brep=rep))
+        yield from F.convex_cases(2, variants, (1, 3, 10), extra=dict(user="scribble"))
         for n in (4, 6, 8, 12):
             yield from F.tiled_cases(n, 2, variants,
                                      [("rot2", 1), ("rot2", 4), ("rot2", 10), ("rot4", 10),
@@ -55,8 +66,8 @@ def cases(tier, variants):
 
 def _solve(p, case, maxiter, maxfun):
     from lbfgsb import minimize_lbfgsb
-    obs = F.Obs(p.f, p.g, p.lb, p.ub)
-    res = minimize_lbfgsb(x0=p.x0.copy(), fun=obs.fun, jac=obs.jac, bounds=p.bounds.copy(),
+    obs = F.Obs(p.f, p.g, p.lb, p.ub, user=case.get("user", "pure"))
+    res = minimize_lbfgsb(x0=p.x0.copy(), fun=obs.fun, jac=obs.jac, bounds=p.bounds.copy(),   # (array or list of pairs)
                           maxcor=case["maxcor"], ftol=0.0, gtol=GTOL, maxiter=maxiter,
                           maxfun=maxfun)
     return res, obs
